@@ -21,5 +21,7 @@ def run(ctx):
     # direction B: random histories (harness/genworld.go): writes/appends with run-time flags and paths, guarded reads, exists, input(), in loops, branches and functions
     gen = progflow.generate(ctx, "files", 120 if ctx.tier == "quick" else 3000)
     failures += progflow.judge(ctx, gen, "gen")
+    # beyond the small scope: sizes that cross the one-digit / two-digit boundary of names, counters and indices (spec/FamScale.tla)
+    failures += progflow.judge(ctx, progflow.scale_cases(ctx, "C17"), "scale")
     progflow.report(ctx, failures)
     return ctx.finish(rule=RULE, assumptions=ASSUME)
